@@ -72,7 +72,8 @@ MenuHooks == Installs({"cH", "cI", "cJ"}, B, B, B, F, F) \cup Upgrades({"cH", "c
              \cup Rollbacks({0, 1}, {0}, B, F, F) \cup Uninstalls(B, B, F)
 \* concurrency family (C09): plain installs and upgrades racing on one release name
 MenuConc == Installs({"cA", "cB"}, F, F, F, F, F) \cup Upgrades({"cB", "cC"}, F, F, {0}, F, F, F)
-MenuConcA == Installs({"cA"}, F, B, F, F, F) \cup Upgrades({"cB", "cC"}, B, B, {0}, F, F, F)
+MenuConcA == Upgrades({"cB", "cC"}, {TRUE}, B, {0}, F, F, F) \cup Upgrades({"cB"}, F, F, {0}, F, F, F)
+MenuConcAX == MenuConcA \cup Installs({"cA"}, F, B, F, F, F)
 MenuConcLim == Upgrades({"cB", "cC"}, F, F, {2}, F, F, F)
 MenuConcX == MenuConc \cup Installs({"cB"}, {TRUE}, F, F, F, F) \cup Upgrades({"cB"}, F, F, {2}, F, F, F)
 \* long histories (C01 pruning over two-digit revision numbers: storage lists records by NAME, v1 v10 v11 v2 ...)
@@ -132,8 +133,8 @@ Known(ids) == KF \cap ids # {}
 Ends(P(_)) == \A p \in Procs : AtEndM(p) => P(p)
 
 \* ---- C01
-Inv_C01_OneDeployed == C01_AtMostOneDeployed(store) \/ Known({"L1", "L2u", "L2r", "L22", "L23"})
-Inv_C01_Success == Ends(LAMBDA p : Sum(p).ok => (C01_Success(pre[p], Cur, Sum(p)) \/ Known({"L1", "L2i", "L2u", "L2r", "L22", "L23"})))
+Inv_C01_OneDeployed == C01_AtMostOneDeployed(store) \/ Known({"L1", "L2u", "L2r", "L22", "L23", "L24"})
+Inv_C01_Success == Ends(LAMBDA p : Sum(p).ok => (C01_Success(pre[p], Cur, Sum(p)) \/ Known({"L1", "L2i", "L2u", "L2r", "L22", "L23", "L24"})))
 Inv_C01_Prune   == Ends(LAMBDA p : C01_Prune(pre[p], Cur, Sum(p)) \/ Known({"L15"}))
 Act_C01_NextRevision ==
   [][\A p \in Procs : (last'.ev = "call" /\ last'.p = p) => C01_NextRevision(pre[p].store, store, store')]_vars
@@ -169,15 +170,15 @@ Inv_C09_LoserClean ==
   Ends(LAMBDA p : (op[p].u.kind \in {"install", "upgrade"} /\ op[p].crs = {}) =>
                     (op[p].result # "ok" /\ \A i \in DOMAIN op[p].log :
                         ~ResWrite(op[p].log[i]) /\ ~(op[p].log[i].kind = "store" /\ op[p].log[i].ok /\ op[p].log[i].verb \in {"create", "update"}))
-                    \/ Known({"L23"}))
+                    \/ Known({"L23", "L24"}))
 \* no two running operations hold the same revision; a record is created only where none exists
-Inv_C09_DisjointRevisions == (\A p, q \in Procs : p # q => op[p].crs \cap op[q].crs = {}) \/ Known({"L23"})
+Inv_C09_DisjointRevisions == (\A p, q \in Procs : p # q => op[p].crs \cap op[q].crs = {}) \/ Known({"L23", "L24"})
 Act_C09_CreateOnlyFresh ==
   [][(last'.ev = "call" /\ last'.kind = "store" /\ last'.verb = "create" /\ last'.ok) =>
        \E r \in Rev : store[r].st = "none" /\ store'[r].st # "none" /\ last'.id = ToString(r)]_vars
 \* once all have returned the ledger is well formed
 Quiescent == \A p \in Procs : pc[p] = "idle"
-Inv_C09_Quiescent == Quiescent => (C01_AtMostOneDeployed(store) \/ Known({"L1", "L2u", "L2r", "L22", "L23"}))
+Inv_C09_Quiescent == Quiescent => (C01_AtMostOneDeployed(store) \/ Known({"L1", "L2u", "L2r", "L22", "L23", "L24"}))
 
 \* ---- C12 (needs KeepLog = TRUE)
 SubOpM(p) == op[p].u.atomic /\ op[p].result # "ok"
